@@ -40,6 +40,39 @@ def any_form(ctx, h):
     return None
 
 
+def find_form(ctx, h):
+    """The helper delegates its scan to `range.find(|x| pred)` — directly or through one crate-local finder function —
+    and only looks at the Option it gets back. Returns {"rng", "body" (pred over elem(dummy)), "call" (term of the Option),
+    "slot" (term of the found position)} or None."""
+    from ..terms import apply_closure, _closure_hook
+    if h.loop_heads():
+        return None
+    prog = ctx.prog
+    tb = TermBuilder(h, prog)
+    cands = []
+    for bi, t in h.calls():
+        if t.callee_is_local() and prog.fn(t.callee()) is not None and prog.fn(t.callee()).kind != "Closure":
+            g = prog.fn(t.callee())
+            if g.loop_heads():
+                continue
+            a = [tb.operand(x, bi, len(h.blocks[bi].stmts)) for x in t.args]
+            r = TermBuilder(g, prog, {i + 1: x for i, x in enumerate(a)}, 1).return_term()
+            _closure_hook[0] = tb._apply_closure_hook
+            if r[0] == "call" and r[1].endswith("::find") and len(r[2]) == 2 and r[2][1][0] == "closure":
+                ctx.analysed_fns.add(g.key)
+                cands.append((("call", t.callee(), tuple(a)), r))
+        elif t.callee_decl() == "std::iter::Iterator::find":
+            a = [tb.operand(x, bi, len(h.blocks[bi].stmts)) for x in t.args]
+            if len(a) == 2 and a[1][0] == "closure":
+                r = ("call", t.callee(), tuple(a))
+                cands.append((r, r))
+    if len(cands) != 1:
+        return None
+    call, r = cands[0]
+    body = apply_closure(r[2][1], (("elem", ("dummy",)),))
+    return {"rng": r[2][0], "body": body, "call": call, "slot": ("field", ("variant", call, "Some"), "0")}
+
+
 def run(ctx):
     prog = ctx.prog
     ins = ctx.anchor(INSERT)
@@ -202,6 +235,19 @@ def helper_rules(ctx, wtb, hib, rfb, q_needed=True):
         if any_form(ctx, h) is not None:
             ctx.ok("R14-full-scan", h.key, "iterator `any` over the whole slot range: false only after every slot was examined")
             continue
+        ff = find_form(ctx, h)
+        if ff is not None:
+            # `find` gives None only after the whole range was examined: the helper may answer false only for None
+            r = TermBuilder(h, prog).return_term()
+            okf = r == ("call", "std::option::Option::is_some", (ff["call"],))
+            if not okf:
+                pe = PathEnumerator(h, prog, ctx.summ, max_back=1)
+                fp = [p for p in pe.paths() if p.exit_kind == "return" and p.ret == "false"]
+                disc = ("call", "discriminant", (ff["call"],))
+                okf = bool(fp) and all(any(e["kind"] == "branch" and e.get("cond") == disc and e["value"] == 0 for e in p.events) for p in fp)
+            ctx.check(okf, "R14-full-scan", h.key, h, "`find` over the whole slot range: false only when it found nothing",
+                      "%s answers false although `find` returned a slot" % h.name)
+            continue
         pe = PathEnumerator(h, prog, ctx.summ, max_back=1)
         heads = h.loop_heads()
         body = h.natural_loop(heads[0]) if len(heads) == 1 else set()
@@ -228,6 +274,19 @@ def helper_rules(ctx, wtb, hib, rfb, q_needed=True):
             get_a = [x for x in body_a[2] if x[0] == "call" and x[1].endswith("::get")] if body_a[0] == "op" else []
             slots_a = {("get", repr(get_a[0][2][1]), self_field_term(get_a[0][2][0]))} if get_a else set()
             shapes[h.key] = (rng_a, slots_a, {repr(body_a)})
+            continue
+        ff = find_form(ctx, h)
+        if ff is not None:
+            tbh = TermBuilder(h, prog)
+            get_f = [x for x in ff["body"][2] if x[0] == "call" and x[1].endswith("::get")] if ff["body"][0] == "op" else []
+            slots_f = {("get", repr(get_f[0][2][1]), self_field_term(get_f[0][2][0]))} if get_f else set()
+            # a slot written by the helper must be the slot that `find` returned
+            for bi, t in h.calls():
+                if t.callee_name() == "set":
+                    a = [tbh.operand(x, bi, len(h.blocks[bi].stmts)) for x in t.args]
+                    pos = a[1][2] if a[1][0] == "cast" else a[1]
+                    slots_f.add(("set", repr(("elem", ("dummy",))) if pos == ff["slot"] else repr(pos), self_field_term(a[0])))
+            shapes[h.key] = (ff["rng"], slots_f, {repr(ff["body"])})
             continue
         tb = TermBuilder(h, prog)
         rng = None
@@ -265,7 +324,7 @@ def helper_rules(ctx, wtb, hib, rfb, q_needed=True):
         get_t = ("call", "<succinct::IntVector as succinct::IntVec>::get", (("field", ("param", 1, "self"), "table"), elem))
         want_cmp = const(0) if h is wtb else ("param", 3, "f")
         good_cmp = any(c == repr(mk("Eq", get_t, want_cmp)) for c in cmps)
-        if any_form(ctx, h) is not None:
+        if any_form(ctx, h) is not None or find_form(ctx, h) is not None:
             # in the iterator form the closure's element is elem(dummy) of the range it is applied to
             dummy = ("elem", ("dummy",))
             get_d = ("call", "<succinct::IntVector as succinct::IntVec>::get", (("field", ("param", 1, "self"), "table"), dummy))
